@@ -297,6 +297,36 @@ def rel_sample(a, pick):
     return None
 
 
+def rel_cam_field(field):
+    def f(a, pick):
+        cams = [i for i, c in enumerate(a["cams"]) if field in c]
+        if a["t"] != "calib" or not cams:
+            return None
+        b = copy.deepcopy(a)
+        c = b["cams"][cams[pick % len(cams)]]
+        j = (pick // 7) % len(c[field])
+        c[field][j] = other64(c[field][j])
+        return a, b
+
+    return f
+
+
+CAM_FIELDS = ("rot", "trans", "focus", "center", "radial", "decentering", "prism", "xd", "yd")
+
+
+def rel_plat_field(field):
+    def f(a, pick):
+        if a["t"] != "platCal" or not a["plats"]:
+            return None
+        b = copy.deepcopy(a)
+        p = b["plats"][pick % len(a["plats"])]
+        j = (pick // 7) % len(p[field])
+        p[field][j] = other32(p[field][j])
+        return a, b
+
+    return f
+
+
 def rel_viewport(a, pick):
     t = a["t"]
     its = codec.items(a)
@@ -371,6 +401,10 @@ EQUAL_RELS = ("same", "rebuilt", "roundtrip")
 DIFF_RELS = {"append-item": rel_append, "drop-last": rel_drop_last, "drop-middle": rel_drop_middle, "label": rel_label,
              "channel": rel_channel, "sample": rel_sample, "viewport": rel_viewport, "camera-index": rel_index, "gap": rel_gap,
              "link": rel_link, "event-type": rel_event_type, "event-count": rel_event_count}
+for _f in CAM_FIELDS:
+    DIFF_RELS["camera:" + _f] = rel_cam_field(_f)
+for _f in ("size", "position"):
+    DIFF_RELS["platform:" + _f] = rel_plat_field(_f)
 for _f in ("frequency", "startTime", "volume", "rot", "trans", "flag", "flags", "nFrames", "nSamples", "model", "format"):
     DIFF_RELS["scalar:" + _f] = rel_scalar(_f)
 
@@ -389,6 +423,10 @@ def relations_for(t):
         rels.append("viewport")
     if t == "optical":
         rels.append("camera-index")
+    if t == "calib":
+        rels += ["camera:" + f for f in CAM_FIELDS]
+    if t == "platCal":
+        rels += ["platform:size", "platform:position"]
     if t == "data3D":
         rels.append("link")
     if t == "events":
@@ -457,7 +495,7 @@ def make_run(t, rel):
 
 
 def make_strategy(t, rel):
-    need = 3 if rel == "drop-middle" else 1 if rel in ("drop-last", "label", "channel", "sample", "viewport", "camera-index", "gap", "event-type", "event-count") else 0
+    need = 3 if rel == "drop-middle" else 1 if rel in ("drop-last", "label", "channel", "sample", "viewport", "camera-index", "gap", "event-type", "event-count") or rel.startswith(("camera:", "platform:")) else 0
 
     def strat(tier):
         base = specs.SPEC[t](tier, need)
@@ -469,6 +507,10 @@ def make_strategy(t, rel):
             base = base.map(lambda s: dict(s, format=1, links=s["links"] or []))
         if rel == "event-count":
             base = base.map(_force_sequence)
+        if rel in ("camera:radial", "camera:decentering", "camera:prism"):
+            base = specs.SPEC[t](tier, need).filter(lambda s: s["format"] == 1)
+        if rel in ("camera:xd", "camera:yd"):
+            base = specs.SPEC[t](tier, need).filter(lambda s: s["format"] == 2)
         return st.fixed_dictionaries({"spec": base, "hints": specs.HINTS, "pick": st.integers(0, 10 ** 6)})
 
     return strat
